@@ -150,13 +150,18 @@ class RabbitAdapter(Adapter):
         got = await try_consume(c, timeout=Fraction(1, 2))
         if got is not None:
             self.held.add(got[0].id_)
+        if cat != "NORMAL":
+            # a DELAYED/DEAD-category consumer is only opened for the duration of the call (as Queue.get_messages
+            # does); left subscribed it would capture every later delayed message
+            await self.finish(cat)
         return got
 
     async def finish(self, cat):
         if cat in self.started:
             await self.cons[cat].finish()
             self.started.discard(cat)
-            await asyncio.sleep(Fraction(1, 2))
+            for _ in range(10):
+                await asyncio.sleep(0)
 
     def settled(self, id_):
         self.held.discard(id_)
@@ -232,10 +237,12 @@ def run_history(S, backend="mem", steps=3, pre=1, ops_allowed=None, cancel_last=
                 ok = got == []
             elif want == "held":
                 ok = got == ["processing"]
-            elif want == "delayed" and v["due"] < now_s:
+            elif want == "delayed" and v["due"] <= now_s:
                 ok = got in (["delayed"], ["waiting"])       # a due message may already have been promoted
             else:
                 ok = got == [want]
+            if not ok:
+                S.tag("deviation", f"{want}:{v.get('origin')}->{','.join(got) or 'nowhere'}")
             S.check("every-message-in-exactly-its-place", ok,
                     info=f"after {trace}: message {i} expected {want} (origin {v.get('origin')}), found {got}")
             if ok and want not in ("gone",) and v.get("payload") is not None:
@@ -312,6 +319,10 @@ def run_history(S, backend="mem", steps=3, pre=1, ops_allowed=None, cancel_last=
         obs = A.places()
         S.cover("cancelled-mid-call" if not finished else "call-completed-before-cancel")
         ok = obs == pre_obs or any(obs == pst for pst in posts)
+        if not ok:
+            changed = sorted(set(list(obs) + list(pre_obs)))
+            S.tag("deviation", ";".join(sorted({f"{','.join(pre_obs.get(i, [])) or 'nowhere'}->{','.join(obs.get(i, [])) or 'nowhere'}"
+                                                 for i in changed if obs.get(i) != pre_obs.get(i)})))
         S.check("cancelled-call-is-all-or-nothing", ok,
                 info=f"after {trace} cancelled after {j} steps: before {pre_obs}, after {obs}, allowed {posts}")
         for i, pl in obs.items():
@@ -361,7 +372,7 @@ def run_history(S, backend="mem", steps=3, pre=1, ops_allowed=None, cancel_last=
                 got = await A.consume(arg)
                 if got is None:
                     # a delayed message that is already due may have been promoted to the normal category
-                    must = [i for i in can if not (arg == "DELAYED" and model.m[i]["due"] < now_s)]
+                    must = [i for i in can if not (arg == "DELAYED" and model.m[i]["due"] <= now_s)]
                     S.check("deliverable-message-is-delivered", not must,
                             info=f"after {trace}: nothing returned although {must} deliverable through {arg}")
                 else:
